@@ -23,8 +23,10 @@ def _c01_runs(tier, seed, replay):
                 ["log", "--seed", S(seed, 2), "--n", "120", "--maxops", "30"],
                 ["log", "--seed", S(seed, 3), "--n", "30", "--maxops", "60", "--big", "1"],
                 ["log", "--kind", "large", "--seed", S(seed, 4), "--n", "2"],
-                ["log", "--kind", "words", "--seed", S(seed, 5), "--n", "40"]]
+                ["log", "--kind", "words", "--seed", S(seed, 5), "--n", "40"],
+                ["log", "--kind", "empties", "--seed", S(seed, 6), "--n", "150"]]
     return ([["log", "--kind", "exhaustive", "--depth", "4", "--n", "100000"]]
+            + [["log", "--kind", "empties", "--seed", S(seed, 70 + i), "--n", "1500"] for i in range(2)]
             + [["log", "--kind", "words", "--seed", S(seed, 60 + i), "--n", "300"] for i in range(2)]
             + [["log", "--seed", S(seed, 10 + i), "--n", "250", "--maxops", "40"] for i in range(12)]
             + [["log", "--seed", S(seed, 30 + i), "--n", "40", "--maxops", "120", "--big", "1"] for i in range(4)]
